@@ -1,9 +1,74 @@
+import SwayVerif.Model.LspSched
+import SwayVerif.Model.LspSchedTree
 import SwayVerif.Driver.Util
-/-! Driver for C24 (stub — replace `answer`; keep `run`). -/
-namespace SwayVerif.Driver.C24
-open SwayVerif.Driver
+/-!
+Driver for C24. Case: `sched <schedule tokens…>`; implementation result:
+`trace=<tid:point,…> end=q:<0|1>,stuck:<n>,lc:<v|none>,latest:<v> skipped=<n>` (see
+`harness/src/bin/sv_c24.rs`).
 
-def answer (_line : String) : String := "unimplemented agree=0 prop=0"
+* `agree` — the trace of the instrumented server is a run of the model (configuration = the shape
+  of the code in the tree) and the model's end state matches the observed one (quiescent, number of
+  waiters still blocked, version used by the last completed compilation);
+* `prop` — (a) and (b) on the REAL end state: quiescent ⇒ no waiter blocked ∧ last completed
+  compilation used the latest version.
+-/
+namespace SwayVerif.Driver.C24
+open SwayVerif.LspSched SwayVerif.Driver
+
+def parseEv (t : String) : Option Ev :=
+  match t.splitOn ":" with
+  | [a, b] => a.toNat?.map fun n => ⟨n, b⟩
+  | _ => none
+
+def parseTrace (s : String) : Option (List Ev) :=
+  if s = "-" then some [] else
+  (s.splitOn ",").foldr (fun t acc => match acc, parseEv t with
+    | some l, some e => some (e :: l)
+    | _, _ => none) (some [])
+
+structure End where
+  q : Bool
+  stuck : Nat
+  lc : Option Nat
+  latest : Nat
+
+def kv (pre : String) (ts : List String) : Option String :=
+  (ts.find? (·.startsWith pre)).map fun t => (t.drop pre.length).toString
+
+def parseEnd (s : String) : Option End := do
+  let fs := s.splitOn ","
+  let q ← kv "q:" fs
+  let st ← kv "stuck:" fs
+  let lc ← kv "lc:" fs
+  let la ← kv "latest:" fs
+  let stuck ← st.toNat?
+  let latest ← la.toNat?
+  let lcv ← if lc = "none" then some none else lc.toNat?.map some
+  pure ⟨q = "1", stuck, lcv, latest⟩
+
+/-- Does some model end state match the observation? -/
+def endMatches (ss : List State) (e : End) : Bool :=
+  ss.any fun t =>
+    (!e.q || quiescentB t) && (!e.q || waitingB t == e.stuck) && t.latest == e.latest &&
+    (match e.lc with
+     | some v => t.lastDone == v
+     | none => true)
+
+def answer (line : String) : String :=
+  let (_, i) := splitCase line
+  let cfg := treeCfg.getD Cfg.fixed
+  match (kv "trace=" i).bind parseTrace, (kv "end=" i).bind parseEnd with
+  | some tr, some e =>
+    let ends := runTrace cfg [init] tr
+    let accepted := !ends.isEmpty
+    let agree := accepted && endMatches ends e
+    let prop := propHolds e.q e.stuck e.lc e.latest
+    let nh := (tr.map (·.tid)).foldl max 0
+    let aborted := tr.any (·.name == "w_ls_aborted")
+    let waited := tr.any (·.name == "p_wake")
+    s!"accepted={b01 accepted} agree={b01 agree} prop={b01 prop} cfg={if treeCfg.isSome then "tree" else "unknown"} " ++
+    s!"handlers={nh} aborted={b01 aborted} waited={b01 waited} q={b01 e.q} len={tr.length / 20 * 20}"
+  | _, _ => "bad-line agree=0 prop=0"
 
 def run : IO Unit := do
   lineLoop (← IO.getStdin) (← IO.getStdout) answer
